@@ -443,6 +443,11 @@ func (P *Prog) assumptionList(prop string, used map[*FuncContract]bool, usedLemm
 	}
 	var ext, ifc, tr, other []string
 	for fc := range used {
+		for _, c := range fc.Ensures {
+			if c.Assumed != "" && fc.Trusted == "" && fc.Kind == "func" {
+				other = append(other, fc.Key+": ASSUMED postcondition ("+c.Assumed+"): "+c.Text)
+			}
+		}
 		switch {
 		case fc.Kind == "extern":
 			ext = append(ext, fc.Key)
@@ -470,6 +475,10 @@ func (P *Prog) assumptionList(prop string, used map[*FuncContract]bool, usedLemm
 		out = append(out, "trusted summary, body not verified: "+k)
 	}
 	for _, k := range other {
+		if strings.Contains(k, ": ASSUMED postcondition (") {
+			out = append(out, "assumed, not verified: "+k)
+			continue
+		}
 		out = append(out, "contract used here, verified under another property: "+k)
 	}
 	out = append(out, "string/slice lengths and allocation sizes are at most 2^62 (allocator never exhausts memory)",
